@@ -897,6 +897,10 @@ SPECIALS = {
     "def-first-line": "def f(): return 1\n",
     "class-first-line": "class C: pass\n",
     "doc-then-def": '"""doc"""\ndef f(x: int):\n    """fdoc"""\n    return x\n',
+    # no def / class at the TOP level: every definition sits inside a module-level compound statement
+    "defs-only-in-try": "try:\n    import nonexistent_mod_xyz\nexcept ImportError:\n    def shim(x: int) -> int:\n        return x\n    class Shim:\n        def m(self, y: int):\n            return y\n",
+    "defs-only-in-if": "import sys\nif sys.version_info >= (3, 0):\n    def newer(x: int):\n        return x\nelse:\n    def newer(x):\n        return x\n",
+    "defs-only-in-with-for": "import contextlib\nwith contextlib.nullcontext():\n    def inside(x: int):\n        return x\nfor _i in range(2):\n    class Loop:\n        def m(self):\n            return _i\n",
 }
 
 
